@@ -2,6 +2,7 @@ package props
 
 import (
 	"fmt"
+	"math"
 	"strconv"
 	"strings"
 	"sync"
@@ -200,6 +201,22 @@ func c01Systematic() []c01Case {
 		}
 		for _, l := range lits {
 			add(l, map[string]ref.Value{"m": ref.MapOf("k", ref.Str("v"))}, "literal")
+		}
+		// number literals in exponent form denote the double nearest to the decimal they spell: each is compared with the
+		// positional spelling of the same double, and with itself through arithmetic that must be exact
+		for _, fl := range gen.FloatLadder() {
+			l := fl.(*ref.Lit)
+			if math.Abs(l.V.F) > 1e22 || (l.V.F != 0 && math.Abs(l.V.F) < 1e-22) {
+				continue // the positional spelling gets unwieldy; C17 prints these
+			}
+			pos := strconv.FormatFloat(l.V.F, 'f', -1, 64)
+			if !strings.Contains(pos, ".") {
+				pos += ".0"
+			}
+			pl := &ref.Lit{V: l.V, Src: pos}
+			add(&ref.Binary{Op: "==", L: l, R: pl}, dataFor(), "float-literal:exponent-vs-positional")
+			add(&ref.Binary{Op: "<", L: l, R: pl}, dataFor(), "float-literal:exponent-vs-positional:lt")
+			add(&ref.Binary{Op: "==", L: &ref.Binary{Op: "-", L: l, R: pl}, R: &ref.Lit{V: ref.Float(0), Src: "0.0"}}, dataFor(), "float-literal:difference-is-zero")
 		}
 		// compile-time globals of every kind, alone and as operands
 		gnames := []string{"G_NULL", "G_TRUE", "G_FALSE", "G_ZERO", "G_INT", "G_NEG", "G_BIG", "G_FLOAT", "app.name", "app.empty", "a.b.c.DEEP", "G_LIST", "G_MAP"}
